@@ -48,7 +48,7 @@ def plan(tier):
     return 200 if tier == "quick" else 2000
 
 
-VARIANTS = ["clean"] * 8 + ["end_start", "end_start_open", "sym_unit", "zero_width", "broad_gauss", "ambiguous_terminal", "same_atom_unit",
+VARIANTS = ["clean"] * 6 + ["connector"] * 3 + ["end_start", "end_start_open", "sym_unit", "zero_width", "broad_gauss", "ambiguous_terminal", "same_atom_unit",
                           "symmetric_product"]
 
 
@@ -58,6 +58,8 @@ def spec_from_seed(run_seed, tier):
     rnd = random.Random(run_seed)
     variant = rnd.choice(VARIANTS)
     nb = rnd.choice([1, 1, 2, 2, 3]) if variant in ("clean", "zero_width", "broad_gauss", "ambiguous_terminal") else 1
+    if variant == "connector":
+        nb = rnd.choice([2, 2, 3])
     units = rnd.sample(UNITS_ASYM, nb)
     if variant == "sym_unit":
         units = [rnd.choice(["{0}CC{1}", "{0}COC{1}", "{0}CC(C)({1})C(=O)OC"])]
@@ -95,7 +97,12 @@ def spec_from_seed(run_seed, tier):
         text = "{[]" + u.format("[<]", "[>]") + "; " + rnd.choice(["[H]", "F", "Br"]) + "[>] [<]}" + dist + rnd.choice(["Cl", "I"])
     else:
         text = prefix
-        for u, dist in blocks:
+        used = "".join(u for u, _ in blocks)
+        # connector tokens between blocks: single two-valent atoms of an element that occurs nowhere else (clean class)
+        conns = [c for c, el in (("S", "S"), ("[Se]", "Se"), ("O", "O"), ("[Te]", "Te")) if el not in used]
+        for bi, (u, dist) in enumerate(blocks):
+            if bi > 0 and variant == "connector" and conns:
+                text += conns.pop(rnd.randrange(len(conns)))
             text += "{[>]" + u.format("[<]", "[>]") + "[<]}" + dist
         text += suffix
     return {"kind": "ensprob", "prop": "C19", "text": text, "tags": tags, "seed": rnd.randrange(1 << 30), "perm_seed": rnd.randrange(1000)}
@@ -273,7 +280,7 @@ def execute(spec):
         for b in range(nb):
             ks = [k for k, p in P[b].items() if p is not None and p > 1e-4 and rep_u[b].get(k) is not None]
             ks.sort(key=lambda k: -P[b][k])
-            cand.append(ks[:3])
+            cand.append(ks[:3] if nb > 1 else ks[:6])  # a single block: every enumerated length (the values must sum up too)
         if any(not c for c in cand):
             return _result(spec, viols, stats, digests, 0)
         combos = [[]]
